@@ -1347,6 +1347,204 @@ pub fn gen_wide_case(r: &mut Prng, p: &Profile) -> Case {
     }
 }
 
+/// A case beyond the usual SIZE bounds of the generator (everything else about it is simple): deep nesting, hundreds
+/// of statements and variables, thousands of loop passes, a row with 8..11 `X`, long names, huge expressions, hundreds
+/// of rows (line numbers beyond 255), hundreds of columns.  Size-dependent slips — a narrowing cast, a capacity used as
+/// a length, an early exit after N items — are realistic and invisible on small inputs.
+pub fn gen_scale_case(r: &mut Prng, p: &Profile) -> Case {
+    let shape = r.below(9);
+    let long = shape == 5;
+    let (n_in, n_out) = match shape {
+        3 => (9 + r.below(4), 1 + r.below(2)),
+        8 => (100 + r.below(200), 30 + r.below(100)),
+        _ => (2 + r.below(3), 1 + r.below(3)),
+    };
+    let mut sigs: Vec<SigSpec> = vec![];
+    for i in 0..n_in {
+        let name = if long { format!("SI{}{i}", "x".repeat(60 + r.below(240))) } else { format!("SI{i}") };
+        sigs.push(SigSpec { name, bits: *r.pick(p.widths), dir: Dir::In, default: Some(0) });
+    }
+    for i in 0..n_out {
+        let name = if long { format!("SO{}{i}", "y".repeat(60 + r.below(240))) } else { format!("SO{i}") };
+        sigs.push(SigSpec { name, bits: *r.pick(p.widths), dir: Dir::Out, default: None });
+    }
+    let mut header: Vec<String> = sigs.iter().map(|s| s.name.clone()).collect();
+    r.shuffle(&mut header);
+    let first_in = sigs[0].name.clone();
+    let is_in = |n: &str| n.starts_with("SI");
+    // a row: `lead` in the first input's column, small numbers in the other inputs, X or a bit in the outputs
+    let mk_row = |r: &mut Prng, lead: GEntry| -> Vec<GEntry> {
+        header
+            .iter()
+            .map(|n| {
+                if *n == first_in {
+                    lead.clone()
+                } else if is_in(n) {
+                    GEntry::Num(r.below(2) as i64)
+                } else if r.chance(1, 2) {
+                    GEntry::X
+                } else {
+                    GEntry::Num(r.below(2) as i64)
+                }
+            })
+            .collect()
+    };
+    let var = |n: &str| GExpr::Var(n.to_string());
+    let bin = |op: &'static str, a: GExpr, b: GExpr| GExpr::Bin(op, Box::new(a), Box::new(b));
+    let mut stmts: Vec<GStmt> = vec![];
+    let mut cap = 400;
+    let tag: &'static str;
+    match shape {
+        0 => {
+            tag = "scale-deep";
+            let d = 5 + r.below(26);
+            let twos = r.below(7);
+            // innermost: a row over the sum of all counters
+            let mut sum = GExpr::Num(1);
+            for l in 0..d {
+                sum = bin("add", sum, var(&format!("c{l}")));
+            }
+            let mut body = vec![GStmt::Let("s".into(), sum), GStmt::Row(mk_row(r, GEntry::Expr(var("s"))))];
+            for l in (0..d).rev() {
+                let passes = if l < twos { 2 } else { 1 };
+                let c = format!("c{l}");
+                if r.chance(1, 3) {
+                    // `while` opens no scope: its counter is bound right in front of it and rebound inside
+                    let mut b = body;
+                    b.push(GStmt::Let(c.clone(), bin("add", var(&c), GExpr::Num(1))));
+                    body = vec![GStmt::Let(c.clone(), GExpr::Num(0)), GStmt::While(bin("lt", var(&c), GExpr::Num(passes)), b)];
+                } else {
+                    body = vec![GStmt::Loop(c, GExpr::Num(passes), body)];
+                }
+                if r.chance(1, 4) {
+                    body.push(GStmt::Row(mk_row(r, GEntry::Num(l as i64 & 1))));
+                }
+            }
+            stmts = body;
+        }
+        1 | 5 => {
+            tag = if long { "scale-long-names" } else { "scale-many-lets" };
+            let n = if long { 6 + r.below(6) } else { 100 + r.below(300) };
+            let vn = |i: usize| if long { format!("v{}{i}", "z".repeat(80 + (i * 37) % 200)) } else { format!("v{i}") };
+            stmts.push(GStmt::Let(vn(0), GExpr::Num(1)));
+            for i in 1..n {
+                let op = *r.pick(&["add", "mul", "xor", "sub"]);
+                let other = if r.chance(1, 3) { var(&vn(r.below(i))) } else { GExpr::Num((i as i64) * 7 + 3) };
+                stmts.push(GStmt::Let(vn(i), bin(op, var(&vn(i - 1)), other)));
+                if i % 50 == 49 || i + 1 == n || (long && r.chance(1, 2)) {
+                    let e = bin("xor", var(&vn(i)), var(&vn(i / 2)));
+                    stmts.push(GStmt::Row(mk_row(r, GEntry::Expr(e))));
+                }
+            }
+        }
+        2 => {
+            tag = "scale-long-loop";
+            let n = 300 + r.below(2700) as i64;
+            stmts.push(GStmt::Let("acc".into(), GExpr::Num(0)));
+            stmts.push(GStmt::Let("w0".into(), GExpr::Num(0)));
+            stmts.push(GStmt::While(
+                bin("lt", var("w0"), GExpr::Num(n)),
+                vec![
+                    GStmt::Let("acc".into(), bin("add", bin("mul", var("acc"), GExpr::Num(31)), var("w0"))),
+                    GStmt::Let("w0".into(), bin("add", var("w0"), GExpr::Num(1))),
+                ],
+            ));
+            stmts.push(GStmt::Row(mk_row(r, GEntry::Expr(var("acc")))));
+            // and a counted loop with a row in every pass: the last rows are the interesting ones
+            let m = 260 + r.below(1200) as i64;
+            cap = 3000;
+            stmts.push(GStmt::Loop("i".into(), GExpr::Num(m), vec![GStmt::Row(mk_row(r, GEntry::Expr(bin("add", var("i"), var("acc")))))]));
+            stmts.push(GStmt::Row(mk_row(r, GEntry::Expr(var("w0")))));
+        }
+        3 => {
+            tag = "scale-many-x";
+            let k = 8 + r.below(4);
+            cap = 7000;
+            let mut xs: Vec<usize> = (0..n_in).collect();
+            r.shuffle(&mut xs);
+            let xs: Vec<String> = xs.into_iter().take(k).map(|i| format!("SI{i}")).collect();
+            let clock = r.chance(1, 3);
+            let row: Vec<GEntry> = header
+                .iter()
+                .map(|n| {
+                    if xs.contains(n) {
+                        GEntry::X
+                    } else if is_in(n) {
+                        if clock { GEntry::C } else { GEntry::Num(1) }
+                    } else {
+                        GEntry::X
+                    }
+                })
+                .collect();
+            stmts.push(GStmt::Row(row));
+            stmts.push(GStmt::Row(mk_row(r, GEntry::Num(1))));
+        }
+        4 => {
+            tag = "scale-repeat";
+            let n = 300 + r.below(2700) as i64;
+            cap = 3200;
+            stmts.push(GStmt::Repeat(GExpr::Num(n), mk_row(r, GEntry::Expr(bin("mul", var("n"), GExpr::Num(3))))));
+            stmts.push(GStmt::Row(mk_row(r, GEntry::Num(1))));
+        }
+        6 => {
+            tag = "scale-big-expr";
+            let t = 100 + r.below(400);
+            let mut e = GExpr::Num(1);
+            for i in 0..t {
+                let op = *r.pick(&["add", "sub", "xor", "mul", "or", "and"]);
+                e = bin(op, e, GExpr::Num((i as i64 * 13 + 5) % 97));
+            }
+            stmts.push(GStmt::Row(mk_row(r, GEntry::Expr(e))));
+            // nested to the right: every level needs its own parentheses
+            let d = 30 + r.below(90);
+            let mut e = GExpr::Num(2);
+            for i in 0..d {
+                let op = *r.pick(&["sub", "add", "xor"]);
+                e = bin(op, GExpr::Num(i as i64 + 1), e);
+            }
+            stmts.push(GStmt::Row(mk_row(r, GEntry::Expr(e))));
+            let mut e = var("SO0");
+            for _ in 0..(20 + r.below(60)) {
+                e = GExpr::Un(*r.pick(&["bnot", "neg"]), Box::new(e));
+            }
+            stmts.push(GStmt::Let("u".into(), e));
+            stmts.push(GStmt::Row(mk_row(r, GEntry::Expr(var("u")))));
+        }
+        7 => {
+            tag = "scale-many-rows";
+            let n = 260 + r.below(1300);
+            cap = 3000;
+            for i in 0..n {
+                stmts.push(GStmt::Row(mk_row(r, GEntry::Num((i % 2) as i64))));
+            }
+        }
+        _ => {
+            tag = "scale-many-columns";
+            for i in 0..(1 + r.below(3)) {
+                stmts.push(GStmt::Row(mk_row(r, GEntry::Num(i as i64 & 1))));
+            }
+        }
+    }
+    let mut layout: Vec<SigSpec> = sigs.iter().filter(|s| s.is_output()).cloned().collect();
+    r.shuffle(&mut layout);
+    let style_seed = r.next_u64();
+    Case {
+        prog: Prog { header, stmts },
+        style_seed,
+        style: Style::random(&mut Prng::new(style_seed ^ 0xABCD)),
+        sigs,
+        layout,
+        own_wo: r.chance(1, 2),
+        drv_seed: r.next_u64(),
+        fault: None,
+        rng_seed: r.next_u64(),
+        p_zx: 0,
+        read_names: if shape == 6 { vec!["SO0".to_string()] } else { vec![] },
+        cap,
+        tags: vec!["scale", tag],
+    }
+}
+
 /// value the driver reports for `sig` (deterministic in the seed, the call index and the signal)
 pub fn driver_value(seed: u64, call: usize, sig: &SigSpec, keep_numeric: bool, p_zx: u32) -> Option<Result<i64, bool>> {
     // Ok(n) = number, Err(false) = Z, Err(true) = X
